@@ -262,6 +262,9 @@ def run_session(queries, cwd, home, **kw):
 def session_matches(res, queries, cwd, home, what, **kw):
     """History oracle shared by several checks: a query's output does not depend on the queries that ran before it in the same
     process. Returns True (held), False (violation recorded) or None (inconclusive: some run did not complete)."""
+    queries = [q for q in queries if "\n" not in q and "\r" not in q]       # a session takes one query per line
+    if len(queries) < 2:
+        return None
     singles = []
     for q in queries:
         r = run([q], cwd=cwd, home=home, **kw)
